@@ -296,6 +296,8 @@ func Genesis(spec *Spec, dbs *DBSet) error {
 
 // World is one node's application stack.
 type World struct {
+	// LastCommitVals: what the last CommitBlock returned (the validators that follow the block, as consensus is told)
+	LastCommitVals []*types.Validator
 	Spec       *Spec
 	DBs        *DBSet
 	BlockStore *bc.BlockStore
@@ -458,7 +460,8 @@ func (w *World) Commit(block *types.Block) error {
 		return fmt.Errorf("CheckBlock rejected block %d", block.Height)
 	}
 	parts := block.MakePartSet(PartSize)
-	_, err := w.App.CommitBlock(block, parts, FakeCommit(block, parts), false)
+	vals, err := w.App.CommitBlock(block, parts, FakeCommit(block, parts), false)
+	w.LastCommitVals = vals
 	return err
 }
 
